@@ -76,4 +76,24 @@ CHECKS = {
         "real": RIG_L_REAL,
         "stub": RIG_L_STUB,
     },
+    "C01": {
+        "level": "exploration",
+        "quick": {"runs": 640, "wall_s": 120},
+        "thorough": {"runs": 60000, "wall_s": 1500},
+        "rule": "one complete node (real config_factory: all actors, async-raft, file store) with a swarm-chosen compaction threshold (5..40 entries) and disk latencies; seeded workload through the public routes (config publish with/without type and description, same-content publishes, remove; namespace set/delete; user add/update/remove; sequence ids and ranges; persistent instance register/remove) interleaved with clean stop + restart (1..n per run, always one at the end); at every restart: observation before the stop (records of the real RaftDataHandler::build_snapshot as a multiset + config GET/md5/type/desc/history for 30 keys + namespace list + user list + config listing) must equal the reference model and must equal the observation after the restart (polled up to 60 simulated s after the node reports the pre-stop log index applied); non-trivial = at least one restart and >= 5 steps; distinct = distinct event-log hash",
+        "probes": ["restart_with_snapshot", "restart_right_after_compaction", "restart_snapshot_plus_suffix", "observed_partial_state_during_startup_load", "replay_applies_entries_already_in_snapshot", "default_admin_recreated_during_startup_load"],
+        "assumptions": ["stop point = every issued disk mutation has completed (the statement's 'all acknowledged writes have reached the OS')", "a publish without type / description keeps the previous ones (code's rule; the statement leaves it open)", "the namespace-migration marker record (__already_sync) is bookkeeping and excluded from the comparison", "every incarnation is kept alive for 12 simulated s after start so that its own one-time start-up timers fire while it is alive (killed incarnations cannot be destroyed inside the shared runtime)", "interrupted compactions (partial snapshot file) are not generated yet; MCP and cache requests are not in the workload"],
+        "real": ["complete node: config_factory + build_share_data (all ~35 actors), async-raft-ext, FileStore, ConfigRoute / RaftRequestRoute / UserManager / SequenceManager", "actix + tokio current-thread runtime with paused clock"],
+        "stub": STUB + ["transport unused (single node)", "HTTP/gRPC servers not started (routes and actors are called directly)"],
+    },
+    "C07": {
+        "level": "exploration",
+        "quick": {"runs": 640, "wall_s": 120},
+        "thorough": {"runs": 60000, "wall_s": 1500},
+        "rule": "a real single-node leader applies a seeded workload (same alphabet as C01) through async-raft's leader path; its committed log is then read back and fed, entry for entry, into a second, passive complete node through the follower path (replicate_to_log + replicate_to_state_machine) with a PRNG split into batches (1, 2, 5, 20 or all), optionally with a clean restart of that node in the middle (start-up replay: snapshot + log up to the recorded applied index), optionally after a compaction; oracle: the full observation (as C01) of the follower-path node equals the leader's; non-trivial = >= 10 log entries; distinct = distinct event-log hash",
+        "probes": ["follower_restarted_mid_log", "follower_compacted_before_restart"],
+        "assumptions": ["the request sequence is whatever the real leader committed for the generated workload (all ClientRequest variants that the workload reaches: NodeAddr, Members, ConfigSet, ConfigRemove, TableManagerReq, NamespaceReq, SequenceReq, NamingReq); McpReq, CacheReq and ConfigFullValue are not generated yet"],
+        "real": ["two complete nodes (config_factory), async-raft leader on the first, FileStore follower path driven through the RaftStorage trait on the second"],
+        "stub": STUB + ["async-raft's replication to the second node is played by the harness (it calls the RaftStorage methods async-raft calls)"],
+    },
 }
